@@ -60,6 +60,8 @@ func localNames(r *verifrt.Rand, canary string) map[string]uint64 {
 		"crash/crash", "gopls/bug",
 		"crash/crash" + frames, "gopls/bug" + frames, "editor/opens" + frames, "go/cmd/build" + frames, "crash/crash2" + frames, "crash" + frames,
 		"crash/crash\nother.pkg.f:+1,+0x1",
+		// a stack counter whose own name looks like an abbreviated frame line
+		"\".crash/crash" + frames, "\".gopls/bug\nmain.f:+1,+0x1",
 		// private
 		"secret/" + canary + "/a", "private:" + canary, "secretstack/" + canary + frames,
 		// names that are not valid UTF-8 (a report renders them with U+FFFD, which a configuration can list)
